@@ -144,6 +144,12 @@ fn run_case(seed: u64, idx: u64, _tier: Tier, out: &mut CaseOut) {
         input = gen::mutate(&mut rng, &input, nops, &gen::HOSTILE_DICT);
         out.inc("docs_mutated");
     }
+    if !mutated && rng.chance(1, 8) {
+        // emoji / variation-selector / joiner / jamo sequences: both width measures must stay within w
+        let pm = *rng.pick(&[30usize, 150]);
+        input = gen::sprinkle_unicode(&mut rng, &input, pm);
+        out.inc("docs_with_unicode_sequences");
+    }
     if crate::ast::has_tag(&doc, "table") {
         out.inc("docs_with_table");
     }
